@@ -78,10 +78,15 @@ class Contract:
         return Scope(a=locs)
 
     def tags_for(self, label):
-        for k, v in self.tags.items():
-            if label == k or label.startswith(k):
-                return set(v)
-        return set(self.default_tags)
+        """tags of the longest key of `tags` that is a prefix of the label; the "" entry (if any) always applies too"""
+        best = None
+        for k in self.tags:
+            if k and (label == k or label.startswith(k)) and (best is None or len(k) > len(best)):
+                best = k
+        out = set(self.tags.get("", ())) | set(self.default_tags)
+        if best is not None:
+            out |= set(self.tags[best])
+        return out
 
     # ---- use at a call site
     def apply(self, I, fi, args, kwargs):
